@@ -64,6 +64,14 @@ pub fn diff_input(prop: &str, seed: u64, k: usize, tier: Tier, corpus: &Corpus) 
                 }
                 s
             }
+            4 if r.chance(1, 3) => {
+                // trivia runs: tens to hundreds of hidden / comment tokens between the token that
+                // decides whether a separator is due and the statement keyword or label
+                let head = r.pick(&[";", "x = 1;", "%if 1 %then", "%else", "%lbl:", "x", "data a", "%m", "%put y;", "%let a=1", ")"]);
+                let unit = r.pick(&["/* c */ ", "/**/\n", " /*c*/", "/* a */\t/* b */ "]);
+                let k = r.pick(&[15usize, 31, 32, 33, 40, 63, 64, 65, 100, 300, 600, 1100]);
+                format!("{head} {}{}", unit.repeat(k), r.pick(SEP_STATS))
+            }
             4 => tg::error_case(&mut r, corpus),
             5 | 6 => grammar::gen_program(&mut r, tier.gcfg()).s,
             _ => gen::general(&mut r, corpus, tier).0,
